@@ -6,6 +6,8 @@ mod meta_text;
 mod server;
 mod util;
 #[cfg(feature = "verif")]
+pub mod verif_handlers;
+#[cfg(feature = "verif")]
 mod verif_locks;
 
 pub use clap::Parser;
